@@ -19,6 +19,7 @@ import YalafiVerif.Proofs.PlainFootnote
 import YalafiVerif.Properties.PlainVanishStmt
 import YalafiVerif.Properties.PlainGroupStmt
 import YalafiVerif.Properties.PlainMixStmt
+import YalafiVerif.Properties.PlainMix2Stmt
 namespace Yalafi
 
 /-- tokens returned by `parser_work` (the main flow) are of output classes, whatever the text -/
